@@ -429,6 +429,9 @@ func (c *Check) finish(verifDir string, findings []Finding, seed int, t0 time.Ti
 		"checker_cmd":         "bin/maddyverif -repo /repo -property " + c.ID + " -tier " + c.Tier,
 		"exhaustive":          false,
 	}
+	if c.selftest != nil {
+		cov["selftest"] = c.selftest
+	}
 	ev := evidence{PropertyID: c.ID, Tier: c.Tier, Seed: seed, Level: "other", Coverage: cov,
 		Assumptions: append([]string{
 			"Go type checker, go/cfg, go/ssa and the VTA call graph of golang.org/x/tools v0.29.0 are correct",
